@@ -21,7 +21,7 @@ func runC13(p *Prog, r *Report) {
 	detached := p.ConstVal("", "PipeEventDetached")
 
 	queuePops(p, r, "C13.13/queue-pops", func(rel string) bool { return strings.HasPrefix(rel, "transport") || rel == "internal/core" })
-	r.Floor("C13.13/queue-pops", "queue_pop_sites", 4)
+	r.Floor("C13.13/queue-pops", "queue_pop_sites", 2)
 	// ---- C13.1 addPipe ordering
 	R := "C13.1/addPipe"
 	r.Describe(R, "addPipe: Attaching hook before proto.AddPipe; added=true only under p.lock on the AddPipe==nil and !closing edges; Attached hook after added=true")
